@@ -22,7 +22,8 @@ PROPERTY = 'C14'
 LEVEL = 'model_checking'
 BOUNDS = {'quick': {'strings': 'all strings (no length bound)', 'send_instant': 'any real in [0, 30] s over a '
                     'scripted life cycle: init_async 5 s, stop at 10 s, stop_async 3 s',
-                    'stop causes': ['shutdown', 'abort', 'handler error', 'ctrl abort event', 'ctrl shutdown event']},
+                    'stop causes': ['shutdown', 'abort', 'handler error', 'ctrl abort event', 'ctrl shutdown event',
+                                    'failing evaluation inside the simulation task (+0..3 loop iterations offset)']},
           'thorough': {'strings': 'all strings (no length bound)', 'send_instant': 'as quick, plus two sends per run',
                        'stop causes': ['shutdown', 'abort', 'handler error', 'ctrl abort event', 'ctrl shutdown event']}}
 OUTSIDE = ["block names generated from user class names (a class literally named 'ext_...')",
@@ -160,12 +161,23 @@ T_INIT, T_STOP, T_CLEAN = 5.0, 10.0, 13.0
 def scen_phase(env, cause, two):
     circ = fresh_circuit()
     d = Dest('dst')
+    dead = []          # set by instrumentation the moment the simulator itself hits an error
     slow = SlowInit('slow', init_timeout=20.0, stop_timeout=20.0)
     ctrl_ev = {'ctrl-abort': lambda: edzed.Event('_ctrl', 'abort', efilter=edzed.not_from_undef),
                'ctrl-shutdown': lambda: edzed.Event('_ctrl', 'shutdown', efilter=edzed.not_from_undef)}.get(cause)
     trig = Settable('trig', init=0, on_output=ctrl_ev()) if ctrl_ev else None
+    if cause == 'calc-error':
+        src = Settable('calcsrc', init=0)
+
+        def bad(x):
+            if x == 'boom':
+                dead.append(True)
+                raise ZeroDivisionError('calc failed')
+            return x
+        edzed.FuncBlock('calc', func=bad).connect(src)
     ev = edzed.ExtEvent(d, 'x')
     results = []
+    yields = env.choose(4, 'yields') if cause == 'calc-error' else 0
     # phase: not started at all
     try:
         ev.send(1)
@@ -178,13 +190,16 @@ def scen_phase(env, cause, two):
 
     async def sender(t, idx):
         await asyncio.sleep(t)
+        for _ in range(yields):
+            await asyncio.sleep(0)       # iteration-level offset within the same virtual instant
         n0 = len(d.got)
+        was_dead = bool(dead)
         now = asyncio.get_running_loop().time()
         try:
             r = ev.send(idx)
-            results.append((idx, t, 'delivered', r, len(d.got) - n0))
+            results.append((idx, t, 'delivered', r, len(d.got) - n0, was_dead))
         except edzed.EdzedInvalidState:
-            results.append((idx, t, 'refused', None, len(d.got) - n0))
+            results.append((idx, t, 'refused', None, len(d.got) - n0, was_dead))
 
     async def stopper():
         await asyncio.sleep(T_STOP)
@@ -197,6 +212,8 @@ def scen_phase(env, cause, two):
                 d.event('fail')
             except RuntimeError:
                 pass
+        elif cause == 'calc-error':
+            src.event('set', value='boom')       # the failing evaluation happens inside the simulation task
         else:
             trig.event('set', value=1)
 
@@ -223,7 +240,10 @@ def scen_phase(env, cause, two):
         except edzed.EdzedInvalidState:
             env.check('phase-finished', len(d.got) == n0 and not circ.is_ready())
     vloop.run(main())
-    for idx, t, what, r, ndeliv in results:
+    for idx, t, what, r, ndeliv, was_dead in results:
+        if was_dead:
+            # the simulation had already failed (instrumented ground truth, iteration-exact): must be refused
+            env.check('refused-once-dead', what == 'refused' and ndeliv == 0, info=lambda: (cause, yields, results))
         before = t < T_STOP          # forks: regions before / at / after the stop instant
         if before:
             env.note('sent-before-stop')
@@ -242,7 +262,7 @@ def scen_phase(env, cause, two):
             env.check('phase-delivery', (what == 'refused') == (ndeliv == 0) and ndeliv <= 1,
                       info=lambda: (cause, results))
     env.check('all-sent', len(results) == len(times))
-    env.obs('phase', cause, [(w, n) for _, _, w, _, n in results])
+    env.obs('phase', cause, [(w, n) for _, _, w, _, n, _ in results])
 
 
 def scen_names(env):
@@ -288,7 +308,7 @@ def shards(tier):
     out = [{'name': 'source sblock', 'scenario': 'scen_source', 'params': {'dest_kind': 'sblock'}},
            {'name': 'source input', 'scenario': 'scen_source', 'params': {'dest_kind': 'input'}},
            {'name': 'names', 'scenario': 'scen_names'}]
-    for cause in ('shutdown', 'abort', 'handler-error', 'ctrl-abort', 'ctrl-shutdown'):
+    for cause in ('shutdown', 'abort', 'handler-error', 'ctrl-abort', 'ctrl-shutdown', 'calc-error'):
         out.append({'name': f'phase {cause}', 'scenario': 'scen_phase', 'params': {'cause': cause, 'two': False}})
         if tier == 'thorough':
             out.append({'name': f'phase {cause} x2', 'scenario': 'scen_phase', 'params': {'cause': cause, 'two': True},
